@@ -9,6 +9,7 @@ sys.path.insert(0, HERE)
 from vk.registry import REGISTRY  # noqa: E402
 
 rules = REGISTRY
+READY = set(open(os.path.join(HERE, 'checks', 'ready.txt')).read().split())
 props = [json.loads(l) for l in open(os.path.join(HERE, 'properties.jsonl'))]
 baseline = json.load(open('/root/.vp/BASELINE.json'))['cmd'].replace(' --junitxml=<file>', '')
 
@@ -16,7 +17,7 @@ checks = []
 na = []
 for p in props:
     pid = p['id']
-    if pid in REGISTRY and REGISTRY[pid].get('ready'):
+    if pid in REGISTRY and pid in READY:
         r = rules[pid]
         checks.append(dict(
             property_id=pid,
